@@ -145,7 +145,8 @@ type gen struct {
 	onPlace func() // name resolution of the expression being placed, run where it stands in source order
 	plain   bool   // the expression being placed may yield a boolean: no arithmetic around it
 
-	loaded []int // query ids that run inside a chunk made by loadstring: what = "main", lines 0, currentline 1
+	loaded     []int       // query ids that run inside a chunk made by loadstring: what = "main", lines 0
+	loadedLine map[int]int // ... and the line of the query statement inside that chunk's own text
 
 	classes map[string]bool
 	kf      map[string]bool
@@ -174,31 +175,47 @@ func (g *gen) ref(fx *fctx, n string) *Expr {
 
 // ---------- tokens with line breaks inside ----------
 func (g *gen) longString() *Expr {
-	nl := nlKinds[g.r.Pick(4, 3, 3, 1)]
-	body := []string{"", "x", "end", "--", "]", "a b", "'"}
+	kind := nlKinds[g.r.Pick(4, 3, 3, 1)]
+	nl := func() string { return kind }
+	if g.r.Chance(25) {
+		nl = func() string { return nlKinds[g.r.Pick(4, 3, 3, 1)] }
+	}
+	if g.r.Chance(50) {
+		// long bracket of level 0-3 whose body is made of closer / opener look-alikes, dashes, quotes,
+		// backslashes and line ends (layout.go soup); "p" keeps the value non-empty
+		eq := strings.Repeat("=", g.r.Pick(3, 3, 2, 1))
+		lg := &layGen{r: g.r}
+		body := lg.soup(eq, nl)
+		i := g.r.Intn(len(body) + 1)
+		body = body[:i] + "p" + body[i:]
+		return str("[" + eq + "[" + body + "]" + eq + "]")
+	}
+	words := []string{"", "x", "end", "--", "]", "a b", "'"}
 	s := ""
 	n := 1 + g.r.Intn(3)
 	for i := 0; i < n; i++ {
-		s += body[g.r.Intn(len(body))]
+		s += words[g.r.Intn(len(words))]
 		if i < n-1 || g.r.Chance(30) {
-			s += nl
+			s += nl()
 		}
 	}
 	if g.r.Chance(40) {
-		s = nl + s // a leading newline is dropped from the value, not from the line count
+		s = nl() + s // a leading newline is dropped from the value, not from the line count
 	}
 	switch g.r.Intn(3) {
 	case 0:
-		return str("[[" + strings.ReplaceAll(s, "]", ")") + "]]")
+		return str("[[p" + strings.ReplaceAll(s, "]", ")") + "]]")
 	case 1:
-		return str("[=[" + s + "]=]")
+		return str("[=[" + s + "p]=]")
 	default:
-		// short string with escaped line breaks
-		t := "\"p"
+		// short string with escaped line breaks, next to other escapes (none of which is a line end)
+		esc := []string{"q", "\\n", "\\r", "\\10", "\\13", "\\\\", "\\'", "", "--", "]]", "\\013\\010"}
+		q := []string{"\"", "'"}[g.r.Intn(2)]
+		t := q + "p"
 		for i := 0; i < n; i++ {
-			t += "\\" + nl + "q"
+			t += esc[g.r.Intn(len(esc))] + "\\" + nl() + esc[g.r.Intn(len(esc))]
 		}
-		return str(t + "\"")
+		return str(t + q)
 	}
 }
 
@@ -206,7 +223,7 @@ func (g *gen) strLit() *Expr {
 	if g.r.Chance(25) {
 		return g.longString()
 	}
-	return str([]string{"\"s\"", "'t'", "\"a b\"", "\"\\n\"", "\"--\""}[g.r.Intn(5)])
+	return str([]string{"\"s\"", "'t'", "\"a b\"", "\"\\n\"", "\"--\"", "\"--[[\"", "'\\r\\n'", "\"\\10\"", "'--[='", "\"]]\""}[g.r.Intn(10)])
 }
 
 // ---------- fillers: harmless whether executed or not ----------
@@ -1513,10 +1530,23 @@ func (g *gen) codead(fx *fctx, depth int) []*Stmt {
 // frame; level 2 is the calling statement.
 func (g *gen) loadchunk(fx *fctx, depth int) []*Stmt {
 	q := g.pt("Q")
-	e := call(call(name("loadstring"), str(fmt.Sprintf("\"local r = Q(%d) return r\"", q.ID))))
+	// the chunk text has its own line count: every piece in front of the statement is one line
+	// (written with escapes inside a short string: \n = LF, \r = CR)
+	pieces := []string{`\n`, `\r`, `\r\n`, `\n\r`, `--\n`, `--x\r\n`, `--[\n`, `--[=\n`, `--[==\r\n`, `--[=\r`, `--[[\n]]`, `--[=[x]=]\n`,
+		`\t\n`, `--]]\n`, `--[=[\r\n]=]`, `--[===\n`}
+	pre, cur := "", 1
+	for g.r.Chance(55) && cur < 6 {
+		pre += pieces[g.r.Intn(len(pieces))] + " " // the blank keeps LF and CR of two pieces apart
+		cur++
+	}
+	e := call(call(name("loadstring"), str(fmt.Sprintf("\"%slocal r = Q(%d) return r\"", pre, q.ID))))
 	p := g.pt("chain")
 	e.Pt = p
 	g.loaded = append(g.loaded, q.ID)
+	if g.loadedLine == nil {
+		g.loadedLine = map[int]int{}
+	}
+	g.loadedLine[q.ID] = cur
 	g.lines = append(g.lines, lineObs{"range", func() int { return e.First }, func() int { return e.Anchor }, obsSrc{"cur", 0, q.ID, 2}, "currentline/2"})
 	g.defLines(fixed(fx.fn), q.ID, 2)
 	g.scopes = append(g.scopes, scopeObs{fixed(fx.fn), p.ID, q.ID, 2})
